@@ -680,12 +680,80 @@ type vc04Op struct {
 	ReqB   *vc04Op         `json:"rb,omitempty"` // overlap: the request served while A is waiting for the rest of its body
 	Hdr    string          `json:"hdr,omitempty"`
 	Tok    *vc04Tok        `json:"tok,omitempty"`
+	HBK    string          `json:"hbk,omitempty"`   // header-block leg: name of the shape (the lines are rebuilt from it on replay)
+	HB     []string        `json:"hb,omitempty"`    // header-block leg: hex of the header lines written instead of ONE "Authorization: <hdr>" line
+	Cands  []vc04Cand      `json:"cands,omitempty"` // header-block leg: what the libraries say about each header value that occurs in the block
 	A      string          `json:"a,omitempty"`
 	B      string          `json:"b,omitempty"`
 	Strict bool            `json:"strict,omitempty"` // lim: core.ServerConfig.Strictmode
 	Flag   bool            `json:"flag,omitempty"`   // lim: core.ServerConfig.InternalRateLimiter
 	DM     []string        `json:"dm,omitempty"`     // lim: core.ServerConfig.DIDMethods
 	Calls  []vc04LimCall   `json:"calls,omitempty"`  // lim: (method, c.Path()) of the requests handed to the installed middleware
+}
+
+type vc04Cand struct {
+	V   string  `json:"v"` // hex of the header value
+	Tok vc04Tok `json:"tok"`
+}
+
+// the header-block shapes: name -> (lines, credential kind the oracle judges the request by). T = a valid credential of key 0,
+// G = garbage, X = an expired token. A request that carries T anywhere is judged as "valid0" (granting is ALLOWED, never demanded).
+var vc04HeaderShapes = []string{"hb-lowercase-name", "hb-uppercase-name", "hb-mixed-name-no-blank", "hb-ows-around", "hb-first-valid-then-garbage",
+	"hb-first-garbage-then-valid", "hb-first-empty-then-valid", "hb-expired-then-garbage", "hb-x-authorization", "hb-proxy-authorization",
+	"hb-authorization-suffix", "hb-garbage-then-proxy-valid", "hb-two-values-comma", "hb-valid-after-other-headers", "hb-expired-then-valid-then-garbage",
+	"hb-empty-value", "hb-blank-value", "hb-empty-then-garbage", "hb-garbage-twice", "hb-scheme-only-then-expired"}
+
+func vc04HeaderBlock(shape string, credByKind map[string]vc04Cred) (lines []string, cands []vc04Cand, credKind string) {
+	T, G, X := credByKind["valid0"].hdr, credByKind["garbage"].hdr, credByKind["expired"].hdr
+	for _, k := range []string{"valid0", "garbage", "expired"} {
+		cands = append(cands, vc04Cand{V: hex.EncodeToString([]byte(credByKind[k].hdr)), Tok: credByKind[k].tok})
+	}
+	credKind = "valid0"
+	switch shape {
+	case "hb-lowercase-name":
+		lines = []string{"authorization: " + T}
+	case "hb-uppercase-name":
+		lines = []string{"AUTHORIZATION: " + T}
+	case "hb-mixed-name-no-blank":
+		lines = []string{"aUtHoRiZaTiOn:" + T}
+	case "hb-ows-around":
+		lines = []string{"Authorization: \t " + T + " \t "}
+	case "hb-first-valid-then-garbage":
+		lines = []string{"Authorization: " + T, "Authorization: " + G}
+	case "hb-first-garbage-then-valid":
+		lines = []string{"Authorization: " + G, "authorization: " + T}
+	case "hb-first-empty-then-valid":
+		lines = []string{"Authorization: ", "Authorization: " + T}
+	case "hb-expired-then-garbage":
+		lines, credKind = []string{"Authorization: " + X, "Authorization: " + G}, "expired"
+	case "hb-x-authorization":
+		lines, credKind = []string{"X-Authorization: " + T}, "none"
+	case "hb-proxy-authorization":
+		lines, credKind = []string{"Proxy-Authorization: " + T}, "none"
+	case "hb-authorization-suffix":
+		lines, credKind = []string{"Authorization-X: " + T, "Authorizatio: " + T}, "none"
+	case "hb-garbage-then-proxy-valid":
+		lines, credKind = []string{"Authorization: " + G, "Proxy-Authorization: " + T}, "garbage"
+	case "hb-two-values-comma":
+		lines = []string{"Authorization: " + T + ", Bearer x"}
+	case "hb-valid-after-other-headers":
+		lines = []string{"Cookie: session=admin", "X-Forwarded-For: 127.0.0.1", "Authorization: " + T, "Accept: */*"}
+	case "hb-expired-then-valid-then-garbage":
+		lines = []string{"Authorization: " + X, "Authorization: " + T, "Authorization: " + G}
+	case "hb-empty-value":
+		lines, credKind = []string{"Authorization:"}, "none"
+	case "hb-blank-value":
+		lines, credKind = []string{"Authorization: \t  "}, "none"
+	case "hb-empty-then-garbage":
+		lines, credKind = []string{"Authorization:", "Authorization: " + G}, "garbage"
+	case "hb-garbage-twice":
+		lines, credKind = []string{"Authorization: " + G, "AUTHORIZATION: " + G}, "garbage"
+	case "hb-scheme-only-then-expired":
+		lines, credKind = []string{"Authorization: Bearer", "Authorization: " + X}, "expired"
+	default:
+		credKind = "none"
+	}
+	return
 }
 
 type vc04LimCall struct {
@@ -854,7 +922,12 @@ func TestVerifC04(t *testing.T) {
 			vc04Seen.mu.Lock()
 			vc04Seen.ran, vc04Seen.user = -1, "-"
 			vc04Seen.mu.Unlock()
-			code := vc04Raw(addr, op.M, target, op.Hdr, op.HX)
+			extra := op.HX
+			for _, h := range op.HB { // header-block leg: these lines, byte for byte, and no other Authorization line
+				b, _ := hex.DecodeString(h)
+				extra = append(append([]string{}, extra...), string(b))
+			}
+			code := vc04Raw(addr, op.M, target, op.Hdr, extra)
 			vc04Seen.mu.Lock()
 			defer vc04Seen.mu.Unlock()
 			ran := "-"
@@ -937,6 +1010,14 @@ func TestVerifC04(t *testing.T) {
 				}
 				tk := c.tok
 				op.Hdr, op.Tok = c.hdr, &tk
+				if op.HBK != "" {
+					lines, cands, kind := vc04HeaderBlock(op.HBK, credByKind)
+					op.HB = nil
+					for _, l := range lines {
+						op.HB = append(op.HB, hex.EncodeToString([]byte(l)))
+					}
+					op.Hdr, op.Tok, op.Cands, op.Cred = "", nil, cands, kind
+				}
 				tb, _ := hex.DecodeString(op.T)
 				op.AuthOK = vc04AuthorityVerdicts(op.M, tb)
 			}
@@ -996,6 +1077,24 @@ func TestVerifC04(t *testing.T) {
 			op := vc04Op{Op: "req", Eng: en, Lis: "int", M: "POST", T: hex.EncodeToString([]byte(path)), Show: strconv.QuoteToASCII(path),
 				AuthOK: map[string]bool{}, Cred: c.kind, Hdr: c.hdr, Tok: &tk, Tag: "burst"}
 			emit(op, run(op))
+		}
+	}
+
+	// the header BLOCK of the request: name case, no blank after the colon, blanks/tabs around the value, several Authorization
+	// lines in both orders, an empty first one, look-alike names (X-Authorization, Proxy-Authorization, Authorization-X) —
+	// Header.Get("Authorization") is the value of the FIRST line with that (canonicalised) name
+	for _, en := range []string{"A", "B", "C"} {
+		for _, shape := range vc04HeaderShapes {
+			for _, path := range []string{"/internal/x", "/internal/x/abc", "/public"} {
+				lines, cands, kind := vc04HeaderBlock(shape, credByKind)
+				var hb []string
+				for _, l := range lines {
+					hb = append(hb, hex.EncodeToString([]byte(l)))
+				}
+				op := vc04Op{Op: "req", Eng: en, Lis: "int", M: "GET", T: hex.EncodeToString([]byte(path)), Show: strconv.QuoteToASCII(path),
+					AuthOK: map[string]bool{}, Cred: kind, HBK: shape, HB: hb, Cands: cands, Tag: "hb"}
+				emit(op, run(op))
+			}
 		}
 	}
 
